@@ -917,3 +917,56 @@ Definition delete_outcome (p : option pval) : outcome :=
                             end
                end
   end.
+
+(* ------------------------------------------------------------------------------------------ *)
+(** * E. length-prefixed frames received from a peer (network/endpoint.rs) and rows with a date
+      the calendar cannot hold (date_utils::date on the writer thread).
+      A stream is what the harness's reference parser makes of the bytes it sends: a frame with the
+      announced length, the number of payload bytes that really follow before the stream ends,
+      and whether bincode decodes the payload as the type the reader expects; or a stream that
+      ends inside the 4 length bytes.  The allocation a reader requests is an explicit output. *)
+Inductive fstep := FFrame (len avail : N) (decodes : bool) | FShortLen.
+
+(* DiscretEndpoint::start_accepted: the ConnectionInfo frame on the event stream:
+   `let mut buf = vec![0; len];` comes before any check.  (delivered, bytes requested) *)
+Definition read_conn_info (f : fstep) : bool * N :=
+  match f with
+  | FShortLen => (false, 0%N)
+  | FFrame len avail dec => (N.leb len avail && dec, len)
+  end.
+
+(* the reader loops of start_channels (answers, queries, events): `if len > max_buffer_size { break }`
+   before the buffer is grown.  (frames delivered, largest buffer requested) *)
+Fixpoint read_channel (limit : N) (fs : list fstep) : N * N :=
+  match fs with
+  | [] => (0%N, 0%N)
+  | FShortLen :: _ => (0%N, 0%N)
+  | FFrame len avail dec :: r =>
+      if N.ltb limit len then (0%N, 0%N)
+      else if negb (N.leb len avail) then (0%N, len)
+      else if negb dec then (0%N, len)
+      else let '(d, a) := read_channel limit r in ((1 + d)%N, N.max len a)
+  end.
+
+Definition max_buffer_size : N := 524288.     (* max_object_size_in_kb * 1024 * 2, Configuration::default *)
+Definition alloc_bound : N := 16777216.       (* what the oracle allows one input to make a reader request *)
+
+(* one connection: the ConnectionInfo frame, then the three streams.
+   [info delivered; answers; queries; events delivered; a request beyond the bound was made] *)
+Definition connection_obs (info : fstep) (ans qs evs : list fstep) : list Z :=
+  let '(ok, a0) := read_conn_info info in
+  if ok then
+    let '(da, aa) := read_channel max_buffer_size ans in
+    let '(dq, aq) := read_channel max_buffer_size qs in
+    let '(de, ae) := read_channel max_buffer_size evs in
+    [1; zn da; zn dq; zn de; zb (N.leb alloc_bound (N.max (N.max a0 aa) (N.max aq ae)))]
+  else [0; 0; 0; 0; zb (N.leb alloc_bound a0)].
+
+(* a row ingested through add_nodes: refused without a write when its author has no right at its
+   date (rights exist from [rights_from] on); otherwise written, and the daily log is marked on the
+   writer thread with date_utils::date(mdate) = DateTime::from_timestamp_millis(mdate).unwrap() *)
+Definition max_calendar_ms : Z := 8210266876799999.      (* +262142-12-31T23:59:59.999Z *)
+Definition ingest_outcome (rights_from mdate : Z) : outcome :=
+  if Z.ltb mdate rights_from then OOk
+  else if Z.leb mdate max_calendar_ms then OOk
+  else OPanic.
